@@ -1,5 +1,5 @@
 """Property -> rule families.  Each entry is a list of callables taking the Run context."""
-import rf_alloc, rf_state, rf_tables, rf_sig, rf_union, rf_flow
+import rf_alloc, rf_state, rf_tables, rf_sig, rf_union, rf_flow, rf_vocab, rf_mir2c
 from lib import facts as F
 
 
@@ -100,11 +100,26 @@ def c20_rf6(run):
     rf20_control(run)
 
 
+def c20_rf21(run):
+    rf_mir2c.rf21(run)
+    run.min_instances('RF21', 8)
+
+
+def c11_vocab(run):
+    rf_vocab.rf7d(run)
+    run.min_instances('RF7d', 50)
+
+
+def c10_vocab(run):
+    rf_vocab.rf7c(run)
+    run.min_instances('RF7c', 30)
+
+
 PLAN = {
-    'C10': [c10_rf6],
-    'C11': [c11_rf6],
+    'C10': [c10_rf6, c10_vocab],
+    'C11': [c11_rf6, c11_vocab],
     'C02': [c02_rf8],
-    'C20': [c20_rf8, c20_rf6],
+    'C20': [c20_rf8, c20_rf6, c20_rf21],
     'C15': [c15_rf17],
     'C18': [c18_rf5],
     'C17': [c17_rf1, c17_rf3],
